@@ -355,7 +355,9 @@ type stepScenario struct {
 	Sched   SchedCfg  `json:"sched"`
 	Dag     *DagSpec  `json:"dag"`
 	StopAt  int       `json:"stopAtStep,omitempty"`
+	StopAtMs int      `json:"stopAtMs,omitempty"` // alternatively: the stop is issued at this fake time (lands inside sleeps: launch delay, retry and repeat intervals, the 100 ms pause)
 	StopVia string    `json:"stopVia,omitempty"`
+	SlowHistory bool  `json:"slowHistory,omitempty"`
 	YAML    string    `json:"yaml,omitempty"`
 }
 
@@ -368,7 +370,7 @@ func init() {
 		}{"stepsim", []string{"sched"}}
 	}
 	e := PropEngines["C03"]
-	e.Variants = []string{"sched", "sched", "sched", "dry"}
+	e.Variants = []string{"sched", "sched", "sched", "dry", "stop", "timeout"}
 	PropEngines["C03"] = e
 	e = PropEngines["C04"]
 	e.Variants = []string{"sched", "stop", "precond"}
@@ -399,6 +401,11 @@ func stepsim(t *testing.T, tp *simrt.Tape, opts RunOpts) *Outcome {
 		// the bound after a timeout is a liveness statement: no injected stalls or slow ops in this variant
 		cfg.PreemptDelayNum, cfg.LatencyScale = 0, 0
 		schedCfg.StallPerM, schedCfg.LatScale = 0, 0
+	}
+	if sc.Variant == "stop5" {
+		// the agent re-sends the stop signal every 5 s; a thread that is descheduled for longer than that
+		// inside the stop path is a different fault from "the stop arrives at any instant"
+		cfg.MaxStall = 2 * time.Second
 	}
 	sc.Sched = schedCfg
 	cfg.TraceOps = opts.Trace
@@ -446,6 +453,14 @@ func stepsim(t *testing.T, tp *simrt.Tape, opts RunOpts) *Outcome {
 			}
 		}
 	}
+	if sc.StopAt > 0 && chance(tp, 1, 2) {
+		// scheduler steps are dense while something happens and sparse while everything sleeps; a stop
+		// drawn by fake time instead lands inside the sleeps
+		sc.StopAtMs = pick(tp, 30, 99, 101, 180, 450, 950, 1050, 1600, 2100, 3300, 5200)
+		if sc.Dag.DelaySec > 0 {
+			sc.StopAtMs = pick(tp, 200, 700, 1001, 1300, 1900, 2400, 3100, 4500)
+		}
+	}
 	sc.YAML = sc.Dag.YAML()
 	out.Sample = sc
 
@@ -488,6 +503,19 @@ func stepsim(t *testing.T, tp *simrt.Tape, opts RunOpts) *Outcome {
 		}
 	}
 
+	if sc.Variant == "sched" && chance(tp, 1, 4) {
+		// fault "slow_op": some writes of the run's history record take 120-400 ms (a busy disk). The status
+		// recorder then lags behind the scheduler's 100 ms poll, which is when hand-overs between a step's
+		// attempts and the polling loop can overlap
+		sc.SlowHistory = true
+		cfg.FaultPlan = func(op *simrt.OpInfo) simrt.Fault {
+			if op.Kind != "write" || !strings.HasSuffix(op.Path, ".dat") || !tp.Chance(simrt.SFault, 1, 3) {
+				return simrt.Fault{}
+			}
+			op.Proc.W.CountFault("slow_op")
+			return simrt.Fault{Kind: simrt.FSlow, Delay: time.Duration(pick(tp, 120, 250, 400)) * time.Millisecond}
+		}
+	}
 	res := simrt.Run(t, cfg, func(w *simrt.World) {
 		seedIDs(tp)
 		dagsched.VerifResetNodeIDs()
@@ -503,11 +531,16 @@ func stepsim(t *testing.T, tp *simrt.Tape, opts RunOpts) *Outcome {
 			via := sc.StopVia
 			w.Spawn(simrt.CurProc(), "stopper", []string{"stopper"}, baseEnv(nil), workDir, true, func(p *simrt.Proc) int {
 				g := simrt.CurG()
-				simrt.Big.Lock()
-				if !stopReleased {
-					stopQ.Wait(g, time.Time{})
+				if sc.StopAtMs > 0 {
+					simrt.Sleep(time.Duration(sc.StopAtMs) * time.Millisecond)
+					w.Probe("stop_at_fake_time")
 				} else {
-					simrt.Big.Unlock()
+					simrt.Big.Lock()
+					if !stopReleased {
+						stopQ.Wait(g, time.Time{})
+					} else {
+						simrt.Big.Unlock()
+					}
 				}
 				if !ar.proc.Alive() {
 					return 0
@@ -656,6 +689,9 @@ func (c *stepCheck) check() {
 	stopped := c.stopIssuedSeq != 0 || c.cancelSeenSeq != 0
 	hung := c.res.Aborted == "faketime" || c.res.Aborted == "steps" || !c.agentExited
 	if c.sc.Variant == "stop5" || c.sc.Variant == "timeout" {
+		if !hung {
+			c.checkRetryCountsStopped()
+		}
 		c.checkStop(hung)
 		return
 	}
@@ -854,6 +890,7 @@ func (c *stepCheck) check() {
 	}
 
 	if stopped || d.TimeoutSec > 0 {
+		c.checkRetryCountsStopped()
 		c.checkOutcome(runsBy, finalBy, stopped)
 		return
 	}
@@ -932,6 +969,38 @@ func (c *stepCheck) check() {
 	c.checkOutcome(runsBy, finalBy, false)
 }
 
+// checkRetryCountsStopped is C03 in a run that was stopped or timed out: attempts stay bounded and the
+// recorded retry count still follows the attempts made; a retry that had been scheduled when the stop came,
+// and was then never made, may or may not have been counted (the statement does not say).
+func (c *stepCheck) checkRetryCountsStopped() {
+	if !c.want("C03") || c.final == nil || c.ar == nil || !c.ar.started {
+		return
+	}
+	d := c.sc.Dag
+	finalBy := map[string]*model.Node{}
+	for _, n := range c.final.Nodes {
+		finalBy[n.Step.Name] = n
+	}
+	for i := range d.Steps {
+		s := &d.Steps[i]
+		fn, n := finalBy[s.Name], len(c.truth.RunsOf(0, s.Name))
+		if fn == nil || n == 0 || s.Repeat {
+			continue
+		}
+		bump(c.out, "retry_count_checked_in_stopped_run")
+		limit := s.RetryLimit
+		if limit < 0 {
+			limit = 0
+		}
+		if n > limit+1 {
+			c.viol("C03", "attempt-count", "too-many/stopped-run", "step %s executed %d times in a stopped run, its retry limit is %d", s.Name, n, limit)
+		}
+		if fn.RetryCount < n-1 || fn.RetryCount > n {
+			c.viol("C03", "retry-count-record", fmt.Sprintf("stopped-run/recorded-%d-made-%d", fn.RetryCount, n-1), "step %s: recorded retry count %d but %d extra attempts were made (run stopped or timed out)", s.Name, fn.RetryCount, n-1)
+		}
+	}
+}
+
 func bump(o *Outcome, probe string) {
 	if o.Probes == nil {
 		o.Probes = map[string]int{}
@@ -989,8 +1058,15 @@ func (c *stepCheck) checkOutcome(runsBy map[string][]*StepRun, finalBy map[strin
 			allOK = false
 		}
 	}
-	// what the step processes themselves say (a label that hides a failed command must not decide the outcome)
+	// what the step processes themselves say (a label that hides a failed command, or that calls a step
+	// finished that never ran, must not decide the outcome)
 	for i := range d.Steps {
+		if fn := finalBy[d.Steps[i].Name]; fn != nil && nodeLabel(fn) == "finished" && len(runsBy[d.Steps[i].Name]) == 0 {
+			if allOK {
+				bump(c.out, "outcome_decided_by_missing_execution")
+			}
+			allOK = false
+		}
 		if rs := runsBy[d.Steps[i].Name]; len(rs) > 0 {
 			if last := rs[len(rs)-1]; last.EndSeq != 0 && (last.Code != 0 || last.Signaled != "") {
 				if allOK {
